@@ -155,7 +155,7 @@ def oracle(cfg, sched, obs):
 
 def run_parallel(exe, text, seed, tier):
     lines = text.splitlines()
-    n = max(1, min(NPROC, len(lines) // 200 + 1))
+    n = max(1, min(NPROC if tier != "thorough" else 12, len(lines) // 200 + 1))
     chunks = [lines[i::n] for i in range(n)]
     e = dict(ENV); e["VERIF_SEED"] = str(seed); e["VERIF_TIER"] = tier
     procs = []
@@ -183,8 +183,8 @@ def run_parallel(exe, text, seed, tier):
 
 def run(r):
     r.rule = ("schedules = sequences of scheduling decisions (which thread runs from its yield point to its next one) enumerated by the "
-              "Lean model over its enabled threads: ALL schedules for 1-2 acquires x 0-2 requests (plain, and with one special acquire: "
-              "request(s) from inside the creator, failing creator, freshness callback true, creator switching fast reload), with fast "
+              "Lean model over its enabled threads: ALL schedules for 1-2 acquires x 0-2 requests (plain, and with one special acquire = every "
+              "combination of {freshness callback true} x {creator fails} x {creator script: none, request, two requests, switch fast on, switch fast on + request}), and for 3 acquires (one special, every position) x 0-1 requests with eager return, with fast "
               "reload off/on; quick adds a seeded sample over the 3x3 box, thorough adds ALL eager-return schedules of every 3x(0..3) "
               "configuration and a larger sample at full granularity.  A schedule is non-trivial when at least one request returned "
               "before an acquire locked (an obligation of the property exists).")
